@@ -179,14 +179,19 @@ Definition colvar_step_uses (s : cvstate) (step_abs step_rel : Z) : list use :=
 
 (* calc_acf at the first analysis step and afterwards: sizes taken from corrFuncLength/Stride/Offset without
    any check (recorded defects, see C10_corrfunc_sizes_refuted):
-   acf.resize(acf_length+1) [size_t wrap, unchecked allocation], acf_stride list heads allocated one by one,
-   `for (i = 0; i < acf_offset; i++) ++iterator` once the history holds (acf_length+acf_offset) mod 2^64 values. *)
+   acf.resize(acf_length+1) [size_t wrap: nothing allocated; unchecked allocation], acf_stride list heads allocated one
+   by one, and, once the history holds (acf_length+acf_offset) mod 2^64 values, `for (i = 0; i < acf_offset; i++)
+   ++iterator` followed by writes through acf.begin(). *)
 Definition corrfunc_uses (host_bytes : Z) (s : cvstate) (history_size : Z) : list use :=
   if s_corr s then
-    [mkUse "calc_acf: acf.resize(acf_length+1)" ((s_cflen s + 1 <? two64) && alloc_ok host_bytes (s_cflen s + 1) 8);
-     mkUse "calc_acf: acf_stride history lists" (alloc_ok host_bytes (s_cfstride s) 24);
-     mkUse "calc_*_acf: skip acf_offset entries of the history"
-           (negb ((s_cflen s + s_cfoff s) mod two64 <=? history_size) || (s_cfoff s <=? history_size))]
+    let n := (s_cflen s + 1) mod two64 in                 (* if (acf.size() < acf_length+1) acf.resize(acf_length+1) *)
+    let m := (s_cflen s + s_cfoff s) mod two64 in         (* length at which a history is complete (and capped) *)
+    [mkUse "calc_acf: acf.resize(acf_length+1)" (alloc_ok host_bytes n 8);
+     mkUse "calc_acf: acf_stride history lists" (alloc_ok host_bytes (s_cfstride s) 24)]
+    ++ (if m <=? history_size then
+          [mkUse "calc_*_acf: skip acf_offset entries of the history" (s_cfoff s <=? history_size);
+           mkUse "calc_*_acf: *(acf.begin()) += ..." (1 <=? n)]
+        else [])
   else [].
 
 (* ------------------------------------------------------------------------------------------------ *)
